@@ -127,6 +127,31 @@ pub fn check(sql: &str, w: &DpWorld, params: &DpParameters, with_sd: bool, feats
             }
         }
     }
+    // the bound each noise was calibrated with is the constant the contributions are really clipped to
+    // (read from the scale-factor projections of the IR, not from the hook)
+    {
+        let clips = clip_constants(&c.relation);
+        let mut ir: Vec<f64> = clips.iter().map(|x| x.2).filter(|x| *x > 0.0).collect();
+        let mut hook: Vec<f64> = applied.iter().map(|a| a.bound).filter(|b| *b > 0.0).collect();
+        ir.sort_by(|a, b| a.partial_cmp(b).unwrap());
+        hook.sort_by(|a, b| a.partial_cmp(b).unwrap());
+        rep.add("clipping_constants_read_from_ir", ir.len() as u64);
+        // every clipping constant of the query must be a bound some noise was calibrated with (the matcher may
+        // miss a constant that an optimisation moved elsewhere, so the converse is only counted)
+        let close = |a: f64, b: f64| (a - b).abs() <= 1e-9 * a.abs().max(b.abs());
+        let unmatched: Vec<f64> = ir.iter().cloned().filter(|a| !hook.iter().any(|b| close(*a, *b))).collect();
+        if !unmatched.is_empty() && !hook.is_empty() {
+            rep.violation(
+                "C03|calibration|noise calibrated for another bound than the clipping constant of the query".to_string(),
+                format!("clipping constants in the query: {:?}; bounds the noise was calibrated with: {:?}", ir, hook),
+                case(),
+            );
+            return;
+        }
+        if ir.len() != hook.len() {
+            rep.count("clipping_constants_vs_bounds:counts_differ(not judged)");
+        }
+    }
     rep.add("noised_columns_observed", applied.len() as u64);
     rep.add("tau_filters_observed", taus.len() as u64);
     if !applied.is_empty() || !taus.is_empty() {
